@@ -7,23 +7,44 @@ META = dict(
     LEVEL="exploration",
     RULE=("valid migration-free forest-walk tree sequences (metadata everywhere, individuals with parents, "
           "populations, known/unknown mutation times) x node lists (random subsets in any order, all, permuted, "
-          "reversed, empty, samples only, non-samples only, single, duplicates, out-of-range) x "
-          "reorder_populations x remove_unreferenced x record_provenance x {TableCollection, TreeSequence}: the result "
-          "is compared table-by-table with a Python reference subset; union: self and other are reference subsets "
-          "of one collection sharing an arbitrary node set, all add_populations x check_shared_equality x "
-          "record_provenance combinations, compared with a Python reference union, plus one-datum perturbations of "
-          "the shared portion that must be refused; split/rejoin law on covers (A older than a time cut, B, C) whose "
-          "independence precondition is enforced by the generator and re-verified by the check. Distinct by sha1 of "
-          "rows + arguments; non-trivial when something is retained/added and the collection has edges or mutations."),
+          "reversed, strided, all but one, empty, samples only, non-samples only, single, duplicates, out-of-range "
+          "incl. ids that wrap to a valid id in 32 bits) x reorder_populations x remove_unreferenced x "
+          "record_provenance x {TableCollection, TreeSequence, low-level _tskit.TableCollection} x every spelling "
+          "of the call (keyword, positional, partly positional, defaults omitted, None for a default) x 20 spellings "
+          "of the id array (list, tuple, range, array.array, numpy int8..uint64, big-endian, strided, read-only, "
+          "empty arrays of any dtype): the result is compared table-by-table with a Python reference subset (the "
+          "low-level result row for row in the documented order, then sorted); table metadata schemas, top-level "
+          "metadata/schema, time_units and the reference sequence must be untouched. union: self and other are "
+          "reference subsets of one collection sharing an arbitrary node set, all add_populations x "
+          "check_shared_equality x record_provenance combinations through the same entry points and spellings, "
+          "compared with a Python reference union; 20 kinds of one-datum perturbations of the shared portion that "
+          "must be refused; node mappings that are no mapping into self must be refused; union(other=self). "
+          "A fixed share of the cases (by case index, not by chance) is structurally extreme: every table > 256 "
+          "rows (star with > 256 children, chain of depth > 256, one individual on > 256 nodes), single ragged "
+          "entries > 64 KiB and an individual with > 256 parents, every table > 65535 rows (numpy reference), and a "
+          "second subset / union applied to the object the first call produced. Split/rejoin law on covers (A older "
+          "than a time cut, B, C) whose independence precondition is enforced by the generator and re-verified by "
+          "the check, with add_populations on (populations independent) and off (population table kept, ids "
+          "verbatim), also with > 65535 new rows per table. Distinct by sha1 of rows + arguments; non-trivial when "
+          "something is retained/added and the collection has edges or mutations."),
     REQUIRED=["subset:ref", "subset:loads", "subset:source-unchanged", "subset:out-of-range-rejected",
-              "union:ref", "union:refusal", "union:loads", "law:rejoin", "law:assert_equals", "law:content",
+              "subset:ll-exact-order", "subset:chain", "subset:top-level-kept", "subset:huge-ref",
+              "union:ref", "union:refusal", "union:loads", "union:chain", "union:bad-node-mapping-rejected",
+              "union:top-level-kept", "law:rejoin", "law:assert_equals", "law:content", "law:huge-rejoin",
               "provenance"],
     ASSUMPTIONS=ASSUME_COMMON + [
         "order of retained individuals after subset and the treatment of parents that are not retained are "
         "unspecified (compared as a set with consistent id remapping)",
-        "node lists with duplicates are undocumented: exercised for memory safety only",
+        "node lists with duplicates and two nodes of other mapped to one node of self are undocumented: exercised "
+        "for memory safety only",
         "the split/rejoin law is asserted only for independent parts (no B-C edge, individual or population; "
-        "populations of C not referenced elsewhere; individual parent links visible on the side of the child)",
+        "populations of C not referenced elsewhere unless population ids are kept; individual parent links visible "
+        "on the side of the child)",
+        "id arrays of a dtype other than list / int32 / int64 / uint32 may be refused with TypeError; "
+        "union(other=self) may be refused with an error; union(check_shared_equality=False) of really differing "
+        "shared parts is compared with the reference only while other stays a valid tree sequence and node -> "
+        "individual references agree",
+        "self and other always carry the same schemas, time_units, top-level metadata and reference sequence",
     ],
     BUDGET={"quick": 40.0,
             # seconds per worker; VERIF_C14_THOROUGH_BUDGET shortens it for development runs only
